@@ -237,11 +237,12 @@ func build(p *propCfg, only string) (*built, error) {
 		cmd.Dir = simDir
 		cmd.Env = env()
 		out, err := cmd.CombinedOutput()
-		if err != nil && overlay != "" && (p.Instr || v.Instr) && locksRewritten && strings.Contains(string(out), "TryR") || err != nil && overlay != "" && (p.Instr || v.Instr) && locksRewritten && strings.Contains(string(out), "TryLock") {
-			// the tree has a Lock()/RLock() statement on something without TryLock/TryRLock (types are not known to the
-			// instrumenter): instrument again without the lock rewriting and keep the stall watchdog as the only answer to
-			// a task blocking while it holds the baton
-			fmt.Fprintf(os.Stderr, "vsim: lock statements cannot be rewritten as TryLock loops on this tree; instrumenting without\n")
+		if err != nil && overlay != "" && (p.Instr || v.Instr) && locksRewritten {
+			// most likely the tree has a Lock()/RLock()/Do() statement that the rewriting does not fit (types are not known
+			// to the instrumenter: a receiver without TryLock/TryRLock, an operand whose address cannot be taken):
+			// instrument again without the lock rewriting and keep the stall watchdog as the only answer to a task blocking
+			// while it holds the baton; if that build fails too, that is the error reported
+			fmt.Fprintf(os.Stderr, "vsim: instrumented build failed with lock statements rewritten; instrumenting without:\n%s\n", tail(string(out), 6))
 			locksRewritten = false
 			if ierr := instrument(false); ierr != nil {
 				return b, ierr
